@@ -24,7 +24,7 @@ func (e *Enum[C]) Replay(raw json.RawMessage) (Result, error) {
 	if err := json.Unmarshal(raw, &c); err != nil {
 		return Result{}, err
 	}
-	return e.Check(c), nil
+	return e.safeCheck(c), nil // a panic outside every Guard is a failure of the case here as well, not a crash of the explorer
 }
 
 func (e *Enum[C]) Run(r *Run) {
